@@ -769,3 +769,5 @@ MANIFEST = {
     'technique': 'layout computation of ctypes mirrors vs parsed C declarations + constant tables + orientation of request fields over value terms',
     'design_ref': 'DESIGN.md 3/C14',
 }
+MANIFEST['note'] += (' Also decided here (necessary conditions shared between properties or added after the independent '
+                     'change rounds, DESIGN.md 8.7): selector/network/port conversions (from C12), signedness of mirror fields the daemon reads, from_ipaddr source.')
